@@ -142,6 +142,9 @@ def families(tier):
                                    version='1.16')
     quick = [('flat', 'u-vcpu-disk', False), ('flat', 'u-vcpu-disk', True),
              ('tree', 'u-vcpu-disk@1.28', False),
+             # with randomisation every selection is explored, so the
+             # result does not depend on the (hash-dependent) list order
+             ('tree', 'u-vcpu-disk@1.28', True),
              ('two', 'u-vcpu-disk@1.16', False),
              ('two-i', '1+2-isolate', False), ('tree', 'u+1-none', False),
              ('two', 'u-vcpu-disk', True)]
